@@ -136,7 +136,7 @@ def single_call_jobs(ctx):
     k = 0
     for row in R.callable_rows():
         for label, vkey in R.cases(row):
-            for dtype in ("float", "int"):
+            for dtype in ("float", "int", "bool"):
                 variants = [("", None)]
                 for b in row["bad"]:
                     variants.append(("bad%d" % len(variants), b))
@@ -175,6 +175,17 @@ def _exec_single(job):
     dtype = float if job["dtype"] == "float" else int
     args = R.build_special(row, rng, n, diag=not job.get("zero_diag"), dtype=dtype,
                            arbitrary_labels=True, vkey=job["vkey"])
+    if job["dtype"] == "bool":
+        # boolean adjacency matrices (e.g. W > thr) are a natural caller-side type: every integer
+        # matrix argument whose entries are all 0/1 is passed as bool; rows without one are skipped
+        conv = False
+        for i, a in enumerate(args):
+            if isinstance(a, np.ndarray) and a.ndim == 2 and a.shape[0] == a.shape[1] \
+                    and a.dtype.kind in "iu" and np.isin(a, (0, 1)).all():
+                args[i] = a.astype(bool)
+                conv = True
+        if not conv:
+            return []
     kw = R.resolve_kwargs(row, job["vkey"], args, rng, n, dtype=dtype, arbitrary_labels=True)
     # distance-matrix arguments: every other call gets unreachable pairs (inf entries)
     for i, a in enumerate(row["args"]):
